@@ -4,7 +4,7 @@ from harness import common, cvengine as cv
 
 import os
 
-STRATA = ['small', 'small', 'as', 'as_nested', 'fusion', 'fusion_var', 'circ', 'circ_var', 'multi', 'small', 'sec', 'sec', 'units', 'ctx', 'as_nested_fs', 'nc_stoploss', 'fusion_adj', 'fs_pair', 'paralog', 'nf_ends', 'nc_as']
+STRATA = ['small', 'small', 'as', 'as_nested', 'fusion', 'fusion_var', 'circ', 'circ_var', 'multi', 'small', 'sec', 'sec', 'units', 'ctx', 'as_nested_fs', 'nc_stoploss', 'fusion_adj', 'fs_pair', 'paralog', 'nf_ends', 'nc_as', 'circ_start']
 if os.environ.get('VERIF_STRATA'):          # targeted sweeps (triage only): restrict the strata
     STRATA = os.environ['VERIF_STRATA'].split(',')
 
